@@ -114,9 +114,10 @@ func init() {
 }
 
 var c16ModeTexts = map[string][]string{
-	"on":    {"on 2020-01-01", "on", "on\n", "on  2020-01-01", "on 2020-1-1", " on 2020-01-01 \n"},
-	"local": {"local", "local 2020-02-02", "local\n", "local  x"},
-	"off":   {"off 2020-01-01", "off", " off \n", "off  2024-01-05", "off 2024-1-5", "off 2024-01-05T10:00:00Z", "off later"},
+	"on":    {"on 2020-01-01", "on", "on\n", "on  2020-01-01", "on 2020-1-1", " on 2020-01-01 \n", "\non 2020-01-01\n"},
+	"local": {"local", "local 2020-02-02", "local\n", "local  x", "\r\n\tlocal\n\n"},
+	// (the last two: a file edited by hand that begins with an empty line - white space around the whole text is not part of it)
+	"off": {"off 2020-01-01", "off", " off \n", "off  2024-01-05", "off 2024-1-5", "off 2024-01-05T10:00:00Z", "off later", "\noff 2024-01-01\n", "\n\n \toff\n"},
 }
 
 func (r c16Row) modeText() string {
